@@ -4,14 +4,13 @@
 #include <string.h>
 #include <stdlib.h>
 #include <errno.h>
+#include <limits.h>
 
 #include "common.h"
 
 static inline int
 version_parse(const char *version, int tuple[3])
 {
-	char buf[64];
-
 	if (version == NULL) {
 		err("version is NULL");
 		return -1;
@@ -22,42 +21,47 @@ version_parse(const char *version, int tuple[3])
 		return -1;
 	}
 
-	strcpy(buf, version);
-
-	char *str = buf;
-	char *which[] = { "major", "minor", "patch" };
-	char *delim[] = { ".", ".", ".-" };
-	char *save = NULL;
+	const char *which[] = { "major", "minor", "patch" };
+	const char *p = version;
 
 	for (int i = 0; i < 3; i++) {
-		char *num = strtok_r(str, delim[i], &save);
-
-		/* Subsequent calls need NULL as string */
-		str = NULL;
-
-		if (num == NULL) {
-			err("missing %s number: %s",
+		/* A number begins with a digit: no sign, blanks or empty
+		 * components like in "1..2" */
+		if (*p < '0' || *p > '9') {
+			err("missing or malformed %s number: %s",
 					which[i], version);
 			return -1;
 		}
 
 		errno = 0;
 		char *endptr = NULL;
-		int v = (int) strtol(num, &endptr, 10);
+		long v = strtol(p, &endptr, 10);
 
-		if (errno != 0 || endptr == num || endptr[0] != '\0') {
+		if (errno != 0 || endptr == p || v < 0 || v > INT_MAX) {
 			err("failed to parse %s number: %s",
 					which[i], version);
 			return -1;
 		}
 
-		if (v < 0) {
-			err("invalid negative %s number: %s",
-					which[i], version);
-			return -1;
-		}
+		tuple[i] = (int) v;
+		p = endptr;
 
-		tuple[i] = v;
+		/* Major and minor are followed by exactly one dot */
+		if (i < 2) {
+			if (*p != '.') {
+				err("missing %s number: %s",
+						which[i + 1], version);
+				return -1;
+			}
+			p++;
+		}
+	}
+
+	/* Only a suffix like "-rc1" can follow the patch number */
+	if (*p != '\0' && *p != '-') {
+		err("unexpected characters after the patch number: %s",
+				version);
+		return -1;
 	}
 
 	return 0;
